@@ -193,6 +193,8 @@ def run(tier):
     rep.cov["bound_formula_points_compared"] = len(bl)
     rep.sample({"case": lines[25][:200]})
     rep.sample({"case": ext[10][:200]})
+    if tier == "thorough":
+        CL.coqchk(vlib, rep, PID)
     return rep.finish()
 
 
